@@ -6,6 +6,7 @@ command bodies; the dispatch theorems are about the real decision procedure `dis
 original token tree (`[]` = the whole line, `[2, 0]` = first item of the third item).
 -/
 import LimnoriaModel.C14.Lemmas
+import LimnoriaModel.C14.MachineLemmas
 namespace C14
 open Py
 
@@ -298,6 +299,44 @@ theorem dispatch_unique (nested : Nat) (path : List Nat) (done : List Str) (st :
   obtain ⟨l, h1, h2, _⟩ := finalEval_spec cfg disp beh inv nested path done st
   refine ⟨l, h1, ?_⟩
   rcases h2 with rfl | ⟨c, rfl, _⟩ <;> simp
+
+/-! ### the small-step machine (`Machine.lean`): command bodies that use `irc` any number of times, threads -/
+
+/-- **On the machine, under every thread schedule and for every command body** (any number of
+replies, errors, noReplies, exceptions; threaded or not): the call log only grows, every logged
+call belongs to a proxy that did its `finalEval`, and no sub-command deeper than
+`supybot.commands.nested.maximum` ever runs. -/
+theorem machine_safety (m : MCfg) (args : List Arg) (ig : Bool) (sched : List Nat) :
+    let c := run m sched (initConfig m args ig)
+    Covered c.heap c.log ∧ (m.ev.maxNesting ≠ 0 → ∀ call ∈ c.log, call.path.length ≤ m.ev.maxNesting) := by
+  obtain ⟨hg0, hc0⟩ := init_inv m args ig
+  obtain ⟨hg, hc, _⟩ := run_inv m sched _ hg0 hc0
+  refine ⟨hc, fun h0 call hcall => ?_⟩
+  obtain ⟨P, hP, hp, _⟩ := hc call hcall
+  have := hg P hP
+  rw [← hp, this.1]
+  exact this.2 h0
+
+theorem machine_log_grows (m : MCfg) (c : Config) (sched : List Nat) (hg : HeapGood m c.heap)
+    (hc : Covered c.heap c.log) : c.log <+: (run m sched c).log :=
+  (run_inv m sched c hg hc).2.2
+
+/-! Full statement for the machine (FALSE on the pinned tree, known finding
+`C14-extra-reply-resumes-enclosing`): "for every body, the sub-commands that run are a prefix of
+the post-order (nothing runs after a stop)".  It holds for bodies that use `irc` once
+(`eval_prefix`); a body that replies twice breaks it: -/
+
+/-- the witness `rtwo [nosuch [duni]]`, `duni` replying twice: the group `nosuch …` is reported as
+invalid (an error goes out), then `duni`'s second reply is passed up to the line's proxy, stands in
+for the failed group, and `rtwo` runs — the calls `[1,1], []` are not a prefix of the post-order
+`[1,1], [1], []`. -/
+theorem extra_reply_witness :
+    let c := runFirst exM 100 (initConfig exM exWitness false)
+    c.log.map (·.path) = [[1, 1], []] ∧ c.out = [.error ['?'], .reply ['z']] ∧
+    ¬ ([[1, 1], []] <+: postOrder exWitness) := by
+  have hp : postOrder exWitness = [[1, 1], [1], []] := by simp [postOrder, postPaths, exWitness]
+  refine ⟨by decide, by decide, ?_⟩
+  rw [hp]; decide
 
 /-! ### non-vacuity: concrete instances meeting the hypotheses -/
 
